@@ -8,11 +8,12 @@
 (* observation `obs` is what the harness recorded around the real          *)
 (* ipfsproxy.Server for that request: the response, the RPC calls received *)
 (* by the recording Cluster service (in order, with their outcome), the    *)
-(* pinset afterwards and the calls received by the recording IPFS daemon.  *)
+(* pinset before and afterwards and the calls received by the recording    *)
+(* IPFS daemon.                                                            *)
 (*                                                                         *)
 (* Two things are specified and deliberately kept apart:                   *)
 (*                                                                         *)
-(*  * Exp(req) / Conforms(req, obs): the transcription of                  *)
+(*  * Exp(req, P) / Conforms(req, obs): the transcription of               *)
 (*    api/ipfsproxy/ipfsproxy.go (router of New, slashHandler,             *)
 (*    pinOpHandler, pinLsHandler, pinUpdateHandler, addHandler,            *)
 (*    repoStatHandler, repoGCHandler) against the harness cluster.         *)
@@ -23,8 +24,9 @@
 (*    pinning endpoint, unknown `type` values, invalid add options) both   *)
 (*    behaviours are accepted.                                             *)
 (*                                                                         *)
-(* ProxyMC checks  Conforms => Good  for every request class; ProxyTrace   *)
-(* evaluates both on the tuples recorded from the real proxy.              *)
+(* ProxyMC checks  Conforms => Good  for every request class, ProxySeq for *)
+(* every request from every reachable pinset; ProxyTrace evaluates both on *)
+(* the tuples recorded from the real proxy.                                *)
 (***************************************************************************)
 EXTENDS Integers, Sequences, FiniteSets, SequencesExt, TLC
 
@@ -299,6 +301,9 @@ HijackExact(req, obs) == (MustRelay(req) => ~obs.self) /\ (MustHijack(req) => ob
 NeverLeaks(req, obs) ==
     \A i \in DOMAIN obs.dcalls : obs.dcalls[i].method = "OPTIONS" \/ obs.dcalls[i].pclass # req.route
 
+\* what the answer lists is only checked when the method lets the answer carry a body
+Shows(req) == req.method # "HEAD"
+
 SuccMut(obs) == SelectSeq(obs.ops, LAMBDA o : o.m \in Mutating /\ o.ok)
 
 \* ErrorMeansNoOp: an error answer => no cluster operation was performed
@@ -315,7 +320,7 @@ FaithfulPinAdd(req, obs) ==
         /\ req.type \in {NA, "recursive"} => PinOf(ps, Res(a)).mode = "recursive"
         /\ req.type = "direct" => PinOf(ps, Res(a)).mode = "direct"
         /\ Len(SuccMut(obs)) = 1 /\ SuccMut(obs)[1].m = "Cluster.PinPath" /\ SuccMut(obs)[1].tgt = a
-        /\ obs.pins = <<Res(a)>>
+        /\ Shows(req) => obs.pins = <<Res(a)>>
     ELSE obs.err
 
 FaithfulPinRm(req, obs) ==
@@ -332,7 +337,7 @@ FaithfulPinLs(req, obs) ==
         truth == IF a = "none" THEN Cids(Before(obs))
                  ELSE IF Resolvable(a) /\ Res(a) \in Cids(Before(obs)) THEN {Res(a)} ELSE {} IN
     /\ Unchanged(obs)
-    /\ ~obs.err => Range(obs.keys) = truth
+    /\ ~obs.err /\ Shows(req) => Range(obs.keys) = truth
     /\ a = "none" \/ (BareCid(a) /\ a \in Cids(Before(obs))) => ~obs.err
 
 FaithfulPinUpdate(req, obs) ==
@@ -365,16 +370,15 @@ FaithfulAdd(req, obs) ==
     ELSE IF req.body # "mp" THEN obs.err
     ELSE IF ~AddOptionsValid(req) THEN TRUE               \* (ErrorMeansNoOp still applies)
     ELSE /\ ~obs.err
-         /\ obs.pins = <<"root">>
          /\ obs.nblocks > 0
-         /\ \E i \in DOMAIN obs.addp : ReqParamsOK(req, obs.addp[i])
+         /\ Shows(req) => obs.pins = <<"root">> /\ \E i \in DOMAIN obs.addp : ReqParamsOK(req, obs.addp[i])
          /\ IF req.pin = "false"      \* not pinned afterwards (a pin of the same root from before may be gone too)
             THEN Del(Range(obs.ps), "root") = Del(Before(obs), "root") /\ "root" \notin Cids(Range(obs.ps))
             ELSE Range(obs.ps) = Put(Before(obs), PinRec("root", "recursive", req.name, req.repl))
 
-FaithfulRepoStat(req, obs) == ~obs.err /\ obs.stat = StatTotal /\ Unchanged(obs)
+FaithfulRepoStat(req, obs) == ~obs.err /\ (Shows(req) => obs.stat = StatTotal) /\ Unchanged(obs)
 FaithfulRepoGC(req, obs) ==
-    /\ ~obs.err /\ Range(obs.keys) = GCKeys /\ Range(obs.ps) = Before(obs)
+    /\ ~obs.err /\ (Shows(req) => Range(obs.keys) = GCKeys) /\ Range(obs.ps) = Before(obs)
     /\ Len(SuccMut(obs)) = 1 /\ SuccMut(obs)[1].m = "Cluster.RepoGC"
 
 Faithful(req, obs) ==
